@@ -8,6 +8,7 @@ import (
 	"path/filepath"
 	"regexp"
 	"runtime"
+	"strings"
 	"sync"
 	"sync/atomic"
 	"testing"
@@ -189,21 +190,35 @@ func saveFile(f *jen.File, path, want string) string {
 		if hung.Load() {
 			return "HUNG: an earlier File.Render in this process never returned"
 		}
-		if perr := hx.Safe(func() error {
-			if err := f.Save(path); err != nil {
-				// what Render reports for the same File: the message of the formatting error
-				out = "ERROR: " + err.Error()
+		done := make(chan string, 1)
+		go func() {
+			res := ""
+			if perr := hx.Safe(func() error {
+				if err := f.Save(path); err != nil {
+					// what Render reports for the same File: the message of the formatting error
+					res = "ERROR: " + err.Error()
+					return nil
+				}
+				b, err := os.ReadFile(path)
+				if err != nil {
+					res = "SAVED FILE UNREADABLE: " + err.Error()
+					return nil
+				}
+				res = "OK:" + string(b)
 				return nil
+			}); perr != nil {
+				res = "PANIC: " + perr.Error()
 			}
-			b, err := os.ReadFile(path)
-			if err != nil {
-				out = "SAVED FILE UNREADABLE: " + err.Error()
-				return nil
-			}
-			out = "OK:" + string(b)
-			return nil
-		}); perr != nil {
-			return "PANIC: " + perr.Error()
+			done <- res
+		}()
+		select {
+		case out = <-done:
+		case <-time.After(hangLimit):
+			hung.Store(true)
+			return "HUNG: File.Save did not return within " + hangLimit.String()
+		}
+		if strings.HasPrefix(out, "PANIC: ") {
+			return out
 		}
 		if norm(out) != want {
 			return out
